@@ -754,6 +754,23 @@ def _templates():
             return [_n(sink, _n(l, t), _n(r_, t))]
         return mk
 
+    def unfolded_diamond(top, l, r_, sink, swap=False):
+        # the tree twin of diamond(...): every path gets its own copy of the top node, so the descriptive
+        # id is the same while the node count differs; swap = parents listed in the other order
+        def mk():
+            ps = [_n(l, _n(top)), _n(r_, _n(top))]
+            return [_n(sink, *(ps[::-1] if swap else ps))]
+        return mk
+
+    def shared_grandparent():
+        # c <- (b <- a, b <- a) with ONE shared a ...
+        top = _n('a')
+        return [_n('c', _n('b', top), _n('b', top))]
+
+    def unshared_grandparent():
+        # ... and its twin with two copies of a: UniqueList keeps both b's (distinct objects)
+        return [_n('c', _n('b', _n('a')), _n('b', _n('a')))]
+
     def two_level_fork():
         par = _n('a')
         mid = _n('b', par)
@@ -765,6 +782,8 @@ def _templates():
             fork('a', 'b'), fork('a', 'b', 'b'), fork('a', 'b', 'b', 'b'), fork('a', 'b', 'c'),
             fork('a', 'c', 'b'), fork('a', 'b', 'c', rev=True), fork('a', 'b', 'b', 'c'), fork('a', 'c', 'b', 'b', 'c'),
             diamond('a', 'b', 'c', 'a'), diamond('a', 'c', 'b', 'a'), diamond('a', 'b', 'b', 'a'),
+            unfolded_diamond('a', 'b', 'c', 'a'), unfolded_diamond('a', 'b', 'c', 'a', swap=True),
+            unfolded_diamond('a', 'b', 'b', 'a'), shared_grandparent, unshared_grandparent,
             two_level_fork, disconnected]
 
 
